@@ -29,7 +29,7 @@ def leg_a(ctx):
 def run(ctx, pool):
     tw, stats = pc.record_processes(ctx, ctx.n(1500, 60000), ctx.n(32, 1200), {"with_std": False}, coarse=True)
     # non-isothermal models, two steps, a first step that removes 25-97 % of the feed: the temperature guard is the only one left
-    tw3, st3 = pc.record_processes(ctx, ctx.n(300, 10000), ctx.n(32, 1000), {"with_std": False, "overcool": True},
+    tw3, st3 = pc.record_processes(ctx, ctx.n(300, 10000), ctx.n(96, 1500), {"with_std": False, "overcool": True, "unselective_p": 0.0},
                                    kinds=["ideal_noniso", "nonideal_noniso"])
     tw.traces.extend(tw3.traces)
     stats["nontrivial"] |= st3["nontrivial"]
